@@ -44,6 +44,13 @@ func init() {
 		trParam{lean: "hasVmemSem", goText: "self.vmemMBSem != nil", leanTy: "Bool", ty: tyBool},
 		i("vmemCur", "self.vmemMBSem.CurrentSize()"), i("maxMemGB", "self.maxMemGB"), i("maxVmemMB", "self.maxVmemMB"),
 		i("memMb", "memMb"), i("vmemMb", "vmemMb"))
+	// C07/C17  syntax.IsLegalUnixFilename (nil ↦ none; range read byte-wise: the loop only compares with '/' and 0,
+	// which never occur inside a multi-byte UTF-8 sequence)
+	addTranslated(trTarget{
+		name: "IsLegalUnixFilename", file: "martian/syntax/compile_params.go", fn: "IsLegalUnixFilename", goParams: true, rangeBytes: true,
+		leanTy: "List UInt8 → Option String", resTy: tyErr, retLean: "Option String",
+		deflt: trDefaults["IsLegalUnixFilename"],
+	})
 	// C18  appendShellSafeQuote: what is appended for a rune of width 1
 	addTranslated(trTarget{
 		name: "shellEscape", file: "martian/core/shell_quote.go", fn: "appendShellSafeQuote", from: "switch r", outs: []string{"buf"},
